@@ -88,7 +88,7 @@ def xf (L : List (List Str)) : PyExpr → PyExpr
   | .unsupported k => .unsupported k           -- no visitor: returned as it is
   | .keyword n v => .keyword n (xf L v)
   | .comp t it ifs a => .comp (xfTarget L t) (xf L it) (xfL L ifs) a
-  | .param n ann d => .param n ann (xfO L d)   -- `arg` nodes are not visited; the default is
+  | .param n ann d => .param n ann (xfO L d)   -- (a lambda parameter has no annotation); the default is
   | .dictItem k v => .dictItem (xfO L k) (xf L v)
   | .cmpRhs op e => .cmpRhs op (xf L e)
 def xfL (L : List (List Str)) : List PyExpr → List PyExpr
